@@ -49,6 +49,10 @@ CHECKS = {
             "exploration: algorithm x qop-set x userhash x opaque x stale x UTF-8 realm/nonce/user/password x method x URI x body, 1..5 reuses with nc tracking, multi-realm / mixed WWW+Proxy / repeated-nonce sequences",
             "trusts md5/sha2 primitive crates and the 300-line ref_digest (unit-tested against the RFC 2617/7616 vectors)",
             "DESIGN.md 3/C18", "E-codec"),
+    'C19': ("proptest over SessionDescription values (serde mirror types built through the public API) and over hostile / mutated SDP text; oracle = field-wise comparison with the generated value, print/parse/print fixpoint, independent RFC 8866/8839/4568 reference printer and line-placement scanner, metamorphic whole-token relation",
+            "exploration: sampled descriptions (0..4 media sections, candidates, crypto lines with every suite/key/param kind, ICE options, directions, numeric edges), arbitrary/ASCII/line-shaped/hostile-number/mutated texts for no-panic, token-extension metamorphic cases for media type / protocol / suite",
+            "trusts the reference printer and scanner (refmodel/sdp.rs); generator stays inside the documented grammars (listed in gen/sdp.rs)",
+            "DESIGN.md 3/C19", "E-codec"),
     'C20': ("proptest over STUN messages/attributes with constructed zero-tail shapes, exhaustive single-bit flips, exhaustive 2^7 loss patterns under a paused clock; oracle = independent RFC 8489/8656 encoder+decoder+verifier (ref_stun, checked against RFC 5769 vectors)",
             "exploration: builder output byte-compared with the reference encoder, reference-encoded messages decoded by ezk, integrity/fingerprint cross-verification and every single-bit corruption of protected messages, parser no-panic on arbitrary/mutated bytes, SIP/STUN demultiplexing, client retry schedule for all loss patterns and table cleanup on return/error/drop",
             "trusts hmac/sha1/sha2/md5 primitive crates, ref_stun, tokio paused clock, hook H3 (pending count)",
